@@ -94,8 +94,8 @@ REWRITES = {
         r"\bwrite!\(\s*(\w+)\s*,\s*\"\\\\u\{:04x\}\"\s*,\s*([^()]+?)\s*\)", r"vfmt::hex_min4(\1, \2)",
         "write!(f, \"\\\\u{:04x}\", n) appends backslash-u and lower-case hex of n zero-padded to AT LEAST four digits"),
     "writeln_error": (
-        r"\bwriteln!\(\s*self\.(stdout|stderr)\.borrow_mut\(\)\s*,\s*\"error:\{e\}\"\s*\)", r"vio::error_line(&self.\1, &e)",
-        "writeln!(w.borrow_mut(), \"error:{e}\") appends exactly one line starting `error:` to w's log, or fails with an io::Error"),
+        r"\bwriteln!\(\s*self\.(stdout|stderr)\.borrow_mut\(\)\s*,\s*\"error:\{e\}\"\s*\)", r"error_line(&self.\1, &e, &self.cli.on_error)",
+        "writeln!(w.borrow_mut(), \"error:{e}\") appends exactly one line starting `error:` to w, or fails with an io::Error; the trusted primitive is also handed the configured policy (&self.cli.on_error) so that its precondition can say which stream the policy names"),
     "write2_out": (
         r"\bwrite!\(\s*self\.(\w+)\.borrow_mut\(\)\s*,\s*\"\{\}\{\}\"\s*,\s*([^,()]+?)\s*,\s*([^()]+?)\s*\)", r"vio::write2(&self.\1, \2, \3)",
         "write!(w.borrow_mut(), \"{}{}\", a, b) appends Display(a)+Display(b) to w's log, or a prefix of it and fails"),
@@ -166,6 +166,13 @@ REWRITES = {
     "f64_op_assign": (r"\b(\w+) ([+*])= (\w+);", r"\1 = \1 \2 \3;",
         "`x += y` / `x *= y` on doubles is written `x = x + y` / `x = x * y` (the compound assignment on f64 crashes the installed Verus); same operation, same operands, same order"),
     "str_to_string": (r"\b(s|str|word|text)\.to_string\(\)", r"vstr::to_string_of(\1)", "&str::to_string() is a String with the same text"),
+    "main_stdout": (r"\bstd::io::stdout\(\)", r"vproc::std_stdout()", "std::io::stdout() is the handle of file descriptor 1"),
+    "main_stderr": (r"\bstd::io::stderr\(\)", r"vproc::std_stderr()", "std::io::stderr() is the handle of file descriptor 2"),
+    "main_stdin": (r"Box::new\(std::io::stdin\)", r"vproc::stdin_factory()", "Box::new(std::io::stdin) is the factory of the standard input handle"),
+    "rc_refcell_new": (r"Rc::new\(RefCell::new\(([^()]*(?:\([^()]*\))?)\)\)", r"vproc::out_of(\1)", "Rc::new(RefCell::new(stream)) is a shared unbuffered handle of the same stream"),
+    "eprintln_disp": (r"\beprintln!\(\s*\"[^\"{}]*\{(\w+)\}[^\"{}]*\"\s*\)", r"vproc::eprintln_disp(&\1)", "eprintln!(\"..{e}..\") writes a line holding Display of e to standard error"),
+    "println_disp": (r"\bprintln!\(\s*\"[^\"{}]*\{(\w+)\}[^\"{}]*\"\s*\)", r"vproc::println_disp(&\1)", "println!(\"..{e}..\") writes a line holding Display of e to standard output"),
+    "process_exit": (r"\bstd::process::exit\(", r"vproc::exit(", "std::process::exit(code) ends the process with status code mod 256 and does not return"),
     "pub_crate": (r"\bpub\(crate\)\s+", r"pub ", "visibility is irrelevant in a single file"),
     "deref_clone": (
         r"(\w+)\.deref\(\)\.clone\(\)", r"vrc::deref_clone(&\1)", "Rc<T>::deref().clone() clones the pointee"),
@@ -258,7 +265,7 @@ def _rewrite_write_macros(text):
                 xs = [x if x else next(it) for x in xs]
                 rep = "%s::disp2(%s, &%s, &%s)" % (mod, tgt, xs[0], xs[1])
             elif mm and ln and re.match(r"^error:\{\w+\}$", body):
-                rep = "vio::error_line(&self.%s, &%s)" % (mm.group(1), holes[0])
+                rep = "error_line(&self.%s, &%s, &self.cli.on_error)" % (mm.group(1), holes[0])
             else:
                 # general case: literal pieces and plain Display holes `{}` / `{name}`, written one after the other; the first
                 # failing piece ends the call with that error (what core::fmt::write does)
